@@ -1189,6 +1189,80 @@ class Body:
             return self.expr_of_place(op["pl"], at, depth, seen)
         return Expr("unknown")
 
+    def _struct_root(self, l, deref, depth=0):
+        """the local that holds the value a place `l` / `*l` denotes: pointers with one definition `&[mut] m` /
+        `&mut *q` / a copy of another pointer are followed, whole moves `l = move m` of a struct are followed"""
+        d, _ = self.defs()
+        for _i in range(12):
+            ds = d.get(l, [])
+            if len(ds) != 1 or ds[0][1] != "assign":
+                break
+            rv = ds[0][2]
+            if deref:
+                if rv["rv"] == "ref" and not rv["pl"]["p"]:
+                    l, deref = rv["pl"]["l"], False
+                elif rv["rv"] == "ref" and rv["pl"]["p"] == ["*"]:
+                    l = rv["pl"]["l"]
+                elif rv["rv"] == "use" and rv["op"].get("k") in ("move", "copy") and not rv["op"]["pl"]["p"]:
+                    l = rv["op"]["pl"]["l"]
+                else:
+                    return None
+            else:
+                if rv["rv"] == "use" and rv["op"].get("k") in ("move", "copy") and not rv["op"]["pl"]["p"] and not self.locals[l]["ty"].startswith("&"):
+                    l = rv["op"]["pl"]["l"]
+                else:
+                    break
+        return None if deref else l
+
+    def _field_stores(self):
+        """(root local, field index) -> [(site, rvalue)] for every partial store `root.f = v`, directly or through a
+        pointer to root; None as a value marks a store this map cannot express (deeper place, call destination)"""
+        fs = self.__dict__.get("_fstores")
+        if fs is None:
+            fs = self.__dict__["_fstores"] = {}
+            d, part = self.defs()
+            for l, lst in part.items():
+                for site, st in lst:
+                    pl = st.get("pl") or st.get("dest")
+                    if pl is None:
+                        continue
+                    p = pl["p"]
+                    deref = bool(p) and p[0] == "*"
+                    rest = p[1:] if deref else p
+                    if not rest or not isinstance(rest[0], dict) or "f" not in rest[0]:
+                        continue
+                    root = self._struct_root(l, deref)
+                    if root is None:
+                        continue
+                    exact = len(rest) == 1 and st.get("s") == "assign"
+                    fs.setdefault((root, rest[0]["f"]), []).append((site, st["rv"] if exact else None))
+        return fs
+
+    def _stored_field(self, pl, i, at, depth, seen):
+        """the value of field proj[i] of the struct local behind pl when the body stores into that field: the one
+        store that dominates `at` with no other definition in between (strong update), else None / "opaque" """
+        proj = pl["p"]
+        if not (i == 0 or (i == 1 and proj[0] == "*")):
+            return None
+        root = self._struct_root(pl["l"], i == 1)
+        if root is None:
+            return None
+        stores = self._field_stores().get((root, proj[i]["f"]))
+        if not stores or at is None:
+            return None
+        if any(rv is None for _s, rv in stores):
+            return "opaque"
+        d, _ = self.defs()
+        whole = [x[0] for x in d.get(root, [])]
+        cands = [(s_, rv) for s_, rv in stores if s_ != at and self.dominates(s_, at)]
+        for s_, rv in cands:
+            between = set(self.sites_between(s_, at))
+            if any(o != s_ and o in between for o, _rv in stores) or any(w in between for w in whole):
+                continue
+            return self._expr_of_def((s_, "assign", rv), depth + 1, seen)
+        # no single latest store: every store and the constructed value are alternatives
+        return [self._expr_of_def((s_, "assign", rv), depth + 1, seen) for s_, rv in stores]
+
     def expr_of_place(self, pl, at=None, depth=0, seen=None):
         e = self.expr_of_local(pl["l"], at, depth, seen)
         proj = pl["p"]
@@ -1199,7 +1273,14 @@ class Body:
                 e = Expr("deref", [e])
             elif "f" in el:
                 s = e.strip() if e.k in ("ref", "deref") else e
-                if s.k == "agg" and s.x.get("ak") in ("tuple", "adt", "closure") and el["f"] < len(s.a) and (s.x.get("ak") != "adt" or "variant" not in el or s.x.get("variant") == el.get("variant")):
+                sf = self._stored_field(pl, i, at, depth, seen) if (s.k == "agg" and depth < 60) else None
+                if sf == "opaque":
+                    e = Expr("field", [e], name=str(el.get("name", el["f"])), adt=el.get("adt", ""), idx=el["f"], ty=el.get("ty", ""))
+                elif isinstance(sf, Expr):
+                    e = sf
+                elif isinstance(sf, list) and s.k == "agg" and el["f"] < len(s.a):
+                    e = Expr("phi", [s.a[el["f"]]] + sf, l=-1, name="stored-field")
+                elif s.k == "agg" and s.x.get("ak") in ("tuple", "adt", "closure") and el["f"] < len(s.a) and (s.x.get("ak") != "adt" or "variant" not in el or s.x.get("variant") == el.get("variant")):
                     e = s.a[el["f"]]
                 elif s.k == "phi" and s.a and all(c.k == "agg" and c.x.get("ak") == "tuple" and el["f"] < len(c.a) for c in s.a):
                     # a component of a join of tuples is the join of the components
